@@ -120,9 +120,9 @@ PROPS = {
         title='Ids are stable and metadata is reproducible',
         level='proof',
         technique='Verus: `extends` postcondition (table prefix-extended, old definitions untouched) on every registry operation; reflexivity/transitivity lemmas over histories',
-        level_text='Clause 1 (every later state extends earlier ones without renumbering or altering existing entries) is the `extends` clause of the trait contract, proved for register_type, intern_type_id and inherited by every into_portable impl; lemma_extends_trans / lemma_id_stable lift it to arbitrary histories.',
-        level_note='Clause 2 (byte-identical replay) is not contract-shaped: it follows from determinism of safe single-threaded Rust with no address- or hash-dependent iteration (assumption, not proved). Clause 3 (other root orders give the same registry up to renaming) is NOT proved. register_types / map_into_portable assumed (external).',
-        verus=[('registry', REGISTRY_ITEMS + ['tmpl::lemma_extends_*', 'tmpl::lemma_id_stable', 'tmpl::lemma_prefix_trans']), ('registry_impls', IMPL_ITEMS), ('interner', INTERNER_ITEMS),
+        level_text='Clause 1 (every later state extends earlier ones without renumbering or altering existing entries) is the `extends` clause of the trait contract, proved for register_type, intern_type_id and inherited by every into_portable impl; lemma_extends_trans / lemma_id_stable lift it to arbitrary histories. Clause 3 is proved in this form: lemma_order_independent - any two registry states satisfying the (proved) invariant that have interned the same SET of identities hold, for each identity, definitions that are equal up to the renaming m between their tables (type_sim over all eight definition kinds, strings by characters), and m is a bijection between their id ranges; it follows from lemma_two_images (two portable images of one definition w.r.t. two duplicate-free tables differ exactly by the renaming).',
+        level_note='Clause 2 (byte-identical replay) is not contract-shaped: it follows from determinism of safe single-threaded Rust with no address- or hash-dependent iteration (assumption, not proved). Clause 3: what remains unproved is the premise of lemma_order_independent, namely that two orders of the same roots intern the same set of identities (the reachable closure) - that part is bounded only (native: all pairs of pool types with recursive roots, both orders). register_types / map_into_portable assumed (external).',
+        verus=[('registry', REGISTRY_ITEMS + ['tmpl::lemma_extends_*', 'tmpl::lemma_id_stable', 'tmpl::lemma_prefix_trans', 'tmpl::lemma_order_independent', 'tmpl::lemma_two_images', 'tmpl::lemma_ref_two', 'tmpl::lemma_fields_two']), ('registry_impls', IMPL_ITEMS), ('interner', INTERNER_ITEMS),
                # order independence presupposes that a declared identity determines the definition (coherence of the library's own impls)
                ('alias', ['TypeInfo for *', 'tmpl::identity::*'])],
         kani_quick=[], kani_thorough=[],
